@@ -8,6 +8,7 @@ From ApiFu Require Import Base.Sexp.
 Import ListNotations.
 Open Scope string_scope.
 From ApiFu Require Val.Values.
+From ApiFu Require ExeA.ArgCollectProofs.
 From ApiFu Require ExeA.ArgData ExeA.ArgArgs ExeA.ArgModel ExeA.ArgSpec ExeA.ArgHyps ExeA.ArgProofs
      ExeA.ArgKeyOrder ExeA.ArgKeyOrderProofs.
 Module A.
@@ -147,4 +148,16 @@ Proof.
   eexists. split; [exact Ho|reflexivity].
 Qed.
 
+
+(** round 7: the example has no fragment cycle, and its level count is defined and small *)
+Example acyclic_holds : acyclic_frags ex_doc.
+Proof.
+  intros F fr l Hf Hc. rewrite <- ArgCollectProofs.find_frag_eq in Hf. apply ArgCollectProofs.find_frag_in in Hf.
+  destruct Hf as [<-|[]].
+  inversion Hc as [|? G fr' l' HG _ _]; subst; [intros []|].
+  vm_compute in HG. destruct HG.
+Qed.
+
+Example levels_value : levels ex_doc 2 (op_sels ex_doc) = Some 2%nat /\ default_fuel ex_doc = 8%nat.
+Proof. vm_compute. split; reflexivity. Qed.
 End A.
